@@ -7,7 +7,81 @@ decision prefix of the other; `run` re-executes `fn` once per queued prefix unti
 empty or the path budget is exhausted (then `exhausted` is set and the harness must end inconclusive).
 """
 import time
+import threading
 import z3
+
+
+def hard_check(solver, seconds):
+    """solver.check() with a limit that is enforced by interrupting the context (z3's own timeout is not reliable on large miters)."""
+    done = threading.Event()
+
+    def fire():
+        if not done.is_set():
+            solver.ctx.interrupt()
+    tm = threading.Timer(seconds, fire)
+    tm.daemon = True
+    tm.start()
+    try:
+        return solver.check()
+    finally:
+        done.set()
+        tm.cancel()
+
+
+def forked_check(solver, extra, seconds, symbols):
+    """check() in a forked child that is killed after `seconds` (the only limit z3 cannot ignore).
+    Returns (verdict, {symbol name: value string} or None)."""
+    import os, json, select, signal
+    rd, wr = os.pipe()
+    pid = os.fork()
+    if pid == 0:
+        try:
+            os.close(rd)
+            solver.push()
+            if extra:
+                solver.add(*extra)
+            res = solver.check()
+            out = {'r': str(res)}
+            if res == z3.sat:
+                m = solver.model()
+                out['m'] = {n: str(m.eval(c, model_completion=True)) for n, c in symbols}
+            os.write(wr, json.dumps(out).encode())
+        except BaseException as ex_:  # noqa: B902
+            try:
+                os.write(wr, json.dumps({'r': 'unknown', 'err': str(ex_)}).encode())
+            except Exception:
+                pass
+        finally:
+            os._exit(0)
+    os.close(wr)
+    buf = b''
+    deadline = time.time() + seconds
+    try:
+        while True:
+            left = deadline - time.time()
+            if left <= 0:
+                break
+            ready, _, _ = select.select([rd], [], [], left)
+            if not ready:
+                break
+            chunk = os.read(rd, 1 << 20)
+            if not chunk:
+                break
+            buf += chunk
+    finally:
+        os.close(rd)
+        try:
+            os.kill(pid, signal.SIGKILL)
+        except ProcessLookupError:
+            pass
+        os.waitpid(pid, 0)
+    if not buf:
+        return 'unknown', None
+    try:
+        out = json.loads(buf.decode())
+    except ValueError:
+        return 'unknown', None
+    return out['r'], out.get('m')
 
 
 class Abort(BaseException):
@@ -22,6 +96,7 @@ class Executor:
     def __init__(self, max_paths=20000, timeout_ms=20000, logic=None):
         self.solver = z3.Solver() if logic is None else z3.SolverFor(logic)
         self.solver.set('timeout', timeout_ms)
+        self.hard_limit = timeout_ms / 1000.0 + 2
         self.max_paths = max_paths
         self.work = [[]]
         self.paths = 0
@@ -64,12 +139,12 @@ class Executor:
         self._depth += 1
         self.solver.add(c)
 
-    def _check(self, *extra):
+    def _check(self, *extra, limit=None):
         t = time.time()
         self.solver.push()
         if extra:
             self.solver.add(*extra)
-        r = self.solver.check()
+        r = hard_check(self.solver, limit if limit is not None else self.hard_limit)
         m = self.solver.model() if r == z3.sat else None
         self.solver.pop()
         self.queries += 1
@@ -167,7 +242,15 @@ class Executor:
         return d
 
     # -- obligations --------------------------------------------------------------------------
-    def prove(self, goal, extra=()):
+    def prove_forked(self, goal, seconds, symbols):
+        """Like prove, but in a killable child; a countermodel comes back as {symbol name: value string}."""
+        t = time.time()
+        r, vals = forked_check(self.solver, [z3.Not(goal)], seconds, symbols)
+        self.queries += 1
+        self.solver_s += time.time() - t
+        return r, vals
+
+    def prove(self, goal, extra=(), limit=None):
         """Returns ('unsat', None) when pc /\\ extra => goal, ('sat', model) with a countermodel, or ('unknown', None)."""
         if isinstance(goal, bool):
             if goal:
@@ -177,7 +260,7 @@ class Executor:
         g = z3.simplify(goal)
         if z3.is_true(g):
             return 'unsat', None
-        return self._check(z3.Not(g), *extra)
+        return self._check(z3.Not(g), *extra, limit=limit)
 
     def stats(self):
         return dict(paths=self.paths, aborted=self.aborted, queries=self.queries, solver_s=round(self.solver_s, 3),
